@@ -93,7 +93,7 @@ theorem Script.applyFrom {a b : Nat} {xs ys : List α} {hs : List (Hunk α)} (t 
     have : List.drop g.length (g ++ oldSide h.body ++ xs) = oldSide h.body ++ xs := by
       rw [List.append_assoc, List.drop_left]
     simp only [this, stripPrefix_append, hp, ih]
-    simp [List.append_assoc, List.take_left]
+    simp [List.append_assoc]
 
 /-! ### reversing -/
 
